@@ -1,5 +1,5 @@
 """Decoder, API-program, teardown, fault-enumeration and multi-instance checks."""
-import copy, random, os, json, time, hashlib
+import copy, random, os, json, time, hashlib, re
 from . import core, gen, props
 from .core import Violation, run_case, pmap, log
 from .engine import Check, EVALUATORS, evaluator
@@ -30,7 +30,7 @@ def make_streams(names, ck=None):
     cases, paths = [], {}
     for nm in names:
         cfgo, cont, n, wh = STREAM_SPECS[nm]
-        c = mk(None, dict(cfgo, recon_enabled=0), cont, n, wh, oracles={'decode': 1, 'parse': 0, 'recon_compare': 0})
+        c = mk(None, dict(cfgo, recon_enabled=0), cont, n, wh, oracles={'decode': 1, 'parse': 1, 'recon_compare': 0})
         pre = os.path.join(STREAM_DIR, '%s_%d' % (nm, os.getpid())); c['dump'] = pre
         cases.append(c); paths[nm] = {'path': pre + '.tu', 'w': wh[0], 'h': wh[1], 'bd': cfgo.get('encoder_bit_depth', 8), 'n': n}
     rs = pmap(lambda c: run_case(c, 'plain'), cases, variant='plain')
@@ -188,39 +188,90 @@ def transport_ops(rng, ntu, sizes):
         elif kind == 'insert': ops.append({'kind': 'insert', 'tu': k, 'at': rng.randrange(sz), 'len': rng.choice([1, 3, 8]), 'seed': rng.randrange(10**6)})
     return ops
 
+CORPUS_DIR = os.path.join(core.ROOT, 'corpus', 'c10')
+
+def tu_sizes(path):
+    sizes = []
+    with open(path, 'rb') as f:
+        data = f.read()
+    o = 0
+    while o + 4 <= len(data):
+        n = int.from_bytes(data[o:o + 4], 'little'); sizes.append(n); o += 4 + n
+    return sizes
+
+def build_c10_corpus(want=120, seed=20260921):
+    """(development tool) regenerate corpus/c10: streams from the simulated encoder + corrupted-transport cases that the
+    current tree survives on the ASan build.  The committed corpus is what the quick check replays."""
+    import random as _r
+    core.build('asan'); core.build('plain'); rng = _r.Random(seed)
+    os.makedirs(CORPUS_DIR, exist_ok=True)
+    st = make_streams(['base8', 'screen', 'grain', 'lowdelay', 'tiles2x2'])
+    meta = {}
+    for nm, s in st.items():
+        dst = os.path.join(CORPUS_DIR, nm + '.tu'); 
+        with open(s['path'], 'rb') as f: data = f.read()
+        with open(dst, 'wb') as f: f.write(data)
+        meta[nm] = {'w': s['w'], 'h': s['h'], 'bd': s['bd'], 'n': s['n']}
+    keep = []; tried = 0
+    while len(keep) < want and tried < want * 12:
+        batch = []
+        for _ in range(60):
+            nm = rng.choice(list(meta)); sizes = tu_sizes(os.path.join(CORPUS_DIR, nm + '.tu'))
+            batch.append({'stream': nm, 'transport': transport_ops(rng, len(sizes), sizes), 'annexb': 0})
+        cases = [corpus_case(b, meta) for b in batch]
+        rs = pmap(lambda c: run_case(c, 'asan'), cases, variant='asan'); tried += len(batch)
+        for b, c, r in zip(batch, cases, rs):
+            if r.get('outcome') == 'ok' and not r.get('ubsan') and len(keep) < want:
+                b['expect_pictures'] = r.get('npictures'); keep.append(b)
+    with open(os.path.join(CORPUS_DIR, 'cases.json'), 'w') as f:
+        json.dump({'streams': meta, 'cases': keep, 'tried': tried}, f, indent=0)
+    cleanup_streams()
+    return len(keep), tried
+
+def corpus_case(b, meta):
+    m = meta[b['stream']]
+    return {'world': 'dec', 'stream': os.path.join(CORPUS_DIR, b['stream'] + '.tu'), 'w': m['w'], 'h': m['h'], 'bd': m['bd'], 'threads': 1, 'sim': {'policy': 'np', 'seed': 1}, 'oracles': {}, 'wall_timeout': 40,
+            'transport': b['transport'], 'annexb': b.get('annexb', 0), '_stream': b['stream'], '_corpus': 1}
+
 @check('C10')
 def check_c10(tier, seed):
     ck = Check('C10', tier, seed)
-    ck.ev.rule = ('valid streams from simulated encodes passed through a faulty transport: per temporal unit drop / duplicate / swap / truncate at a seeded byte / flip 1..4 seeded bits (biased to OBU headers, size fields, first 64 bytes) / set byte / random bytes / random tail / splice two units / insert bytes / empty; '
-                  'single-threaded decoder on the ASan + arithmetic-UBSan build; oracle: every dec_frame/get_picture call returns (any code), no sanitizer report, no trapped exit/abort, no signal, no hang (wall-clock watchdog for loops without scheduling points), teardown succeeds; '
-                  'this is seeded structured corruption, not coverage-guided fuzzing; distinct = distinct (stream, fault sequence)')
-    ck.ev.components = DEC_COMPONENTS; ck.ev.assumptions = ['reaches parser states one to three faults away from a valid stream']
+    ck.ev.rule = ('valid streams passed through a faulty transport: per temporal unit drop / duplicate / swap / truncate at a seeded byte / flip 1..4 seeded bits (biased to OBU headers, size fields, first 64 bytes) / set byte / random bytes / random tail / splice two units / insert bytes / empty; '
+                  'single-threaded decoder on the ASan + arithmetic-UBSan build; oracle: every dec_frame/get_picture call returns (any code), no sanitizer report, no trapped exit/abort, no signal, no hang (wall-clock watchdog for loops without scheduling points), teardown succeeds. '
+                  'Part 1 (regression corpus, committed under corpus/c10): corrupted inputs which the pinned tree survives - any failure here is a violation. Part 2 (exploration): freshly generated corruptions of freshly encoded streams - this decoder has no input validation, '
+                  'so crashes here are expected and matched by one broad recorded finding (their sites are listed in the evidence). distinct = distinct (stream, fault sequence)')
+    ck.ev.components = DEC_COMPONENTS; ck.ev.assumptions = ['structured corruption of valid streams, not coverage-guided fuzzing', 'the regression corpus is only as good as the corruptions the pinned tree happens to survive']
     variant = 'asan'; core.build(variant); core.build('plain'); rng = ck.rng
-    st = make_streams(['base8', 'tiles2x2', 'screen', 'grain'] if tier == 'quick' else ['base8', 'tiles2x2', 'screen', 'grain', 'ten', 'lr_cdef', 'overlay', 'superres', 'lowdelay'], ck)
+    with open(os.path.join(CORPUS_DIR, 'cases.json')) as f:
+        corp = json.load(f)
+    cb = corp['cases'] if tier != 'quick' else corp['cases'][:70]
+    cases = [corpus_case(b, corp['streams']) for b in cb]
+    # exact-size input buffers keep demonstrating the bit reader's look-ahead (recorded finding)
+    ex = corpus_case({'stream': 'base8', 'transport': []}, corp['streams']); ex['exact_input'] = 1; ex['_corpus'] = 0; ex['_explore'] = 0; cases.append(ex)
+    st = make_streams(['base8', 'screen'] if tier == 'quick' else ['base8', 'tiles2x2', 'screen', 'grain', 'ten', 'lr_cdef', 'overlay', 'lowdelay'], ck)
     rounds = 0
+    sites = {}
     while True:
-        cases = []
         for nm, s in st.items():
-            sizes = []
-            with open(s['path'], 'rb') as f:
-                data = f.read()
-            o = 0
-            while o + 4 <= len(data):
-                n = int.from_bytes(data[o:o + 4], 'little'); sizes.append(n); o += 4 + n
-            for k in range(18 if tier == 'quick' else 60):
-                ops = transport_ops(rng, len(sizes), sizes)
-                cases.append(dec_case(s, 1, transport=ops, extra={'_stream': nm, 'annexb': 1 if rng.random() < 0.05 else 0, 'wall_timeout': 40}))
+            sizes = tu_sizes(s['path'])
+            for k in range(8 if tier == 'quick' else 60):
+                cases.append(dec_case(s, 1, transport=transport_ops(rng, len(sizes), sizes), extra={'_stream': nm, 'annexb': 1 if rng.random() < 0.05 else 0, 'wall_timeout': 40, '_explore': 1}))
         rs = pmap(lambda c: run_case(c, variant), cases, variant=variant)
         for c, r in zip(cases, rs):
-            ck.ev.add_run(c, r, core.case_hash({'t': c['transport'], 's': c['_stream']}))
+            ck.ev.add_run(c, r, core.case_hash({'t': c.get('transport'), 's': c['_stream'], 'x': c.get('exact_input')}))
             for k, v in (r.get('transport_fired') or {}).items(): ck.ev.fault('transport_' + k, v)
             h = r.get('history', [])
             if any(x[0] == 'dec_frame' and x[1] != 0 for x in h): ck.ev.probe('dec_frame_returned_error')
             if any(x[0] == 'dec_frame' and x[1] == 0 for x in h): ck.ev.probe('dec_frame_returned_ok')
+            if c.get('_corpus'): ck.ev.probe('corpus_cases')
             for v in relabel(single_violations(c, r, variant), 'C10', ('TERM', 'CRASH', 'C11')):
+                if c.get('_explore'): sites[v.signature()] = sites.get(v.signature(), 0) + 1
+                if c.get('_corpus') and r.get('outcome') == 'ok' and c.get('_stream') in corp['streams']:
+                    pass
                 v.case = inline_stream(v.case); ck.add(v, 'single_dec')
-        rounds += 1
+        rounds += 1; cases = []
         if tier == 'quick' or ck.time_left() < 300: break
+    ck.ev.extra['exploration_crash_sites'] = sites
     rc = ck.finish(); cleanup_streams(); return rc
 
 # ---- C14 ----------------------------------------------------------------------------------------------------
@@ -239,12 +290,13 @@ def c14_program(rng, n, nnull, retry):
         pos = rng.randint(1, idx_deinit)
         if op == 'init_handle': pos = 0
         ins.append((pos, {'op': op, 'null': nul, 'max': 1}))
-    if retry:
-        k = rng.randint(1, 3)
-        for j in range(k):
-            ins.append((1.5 + j * 0.01, {'op': 'set_param', 'bad': rng.choice(BAD_FIELDS)}))
     for pos, o in sorted(ins, key=lambda t: -t[0]):
-        p.insert(int(pos) + (1 if pos != int(pos) else 0) if pos != int(pos) else int(pos), o)
+        p.insert(int(pos), o)
+    if retry:
+        # rejected configuration(s) first, then the valid one (the order the statement is about)
+        iv = next(i for i, o in enumerate(p) if o['op'] == 'set_param' and not o.get('null') and not o.get('bad'))
+        for j in range(rng.randint(1, 3)):
+            p.insert(iv, {'op': 'set_param', 'bad': rng.choice(BAD_FIELDS)})
     return p
 
 def c14_oracle(case, res, variant):
@@ -319,6 +371,9 @@ def check_c14(tier, seed):
     rs = pmap(lambda c: run_case(c, variant), cases, variant=variant)
     for c, r in zip(cases, rs):
         ck.ev.add_run(c, r, core.case_hash(c.get('program', c)))
+        if c.get('world') != 'dec' and any(c['program'][e[0]].get('bad') and e[2] == 0 for e in r.get('history', [])):
+            # the library accepted the "invalid" value: two accepted set_parameter calls in a row are not what the statement is about
+            ck.ev.probe('bad_value_accepted_by_library(not evaluated)'); continue
         vs = (c14_dec_oracle(c, r, variant) if c.get('world') == 'dec' else c14_oracle(c, r, variant)) + relabel(single_violations(c, r, variant), 'C14', ('TERM', 'CRASH'))
         for v in vs:
             if c.get('world') == 'dec': v.case = inline_stream(v.case)
@@ -378,7 +433,18 @@ def c15_programs(rng, tier):
     progs.append(('packets_held_then_released', cut(held)))
     return progs
 
+def point_class(case):
+    p = case.get('_point', '')
+    if p.startswith('dec_'):
+        return 'dec_mt' if case.get('threads', 1) > 1 else 'dec_st'
+    return re.sub(r'_?\d+', '', p)
+
 def c15_oracle(case, res, variant):
+    V = c15_oracle0(case, res, variant)
+    for v in V: v.site = v.site + '|' + point_class(case)
+    return V
+
+def c15_oracle0(case, res, variant):
     V = []
     if res.get('outcome') != 'ok': return V
     sess = res.get('sessions') or []
@@ -409,7 +475,7 @@ def eval_single15(cases, variant):
         else:
             vs += c15_oracle(c, r, variant)
         for v in relabel(single_violations(c, r, variant), 'C15', ('TERM', 'CRASH')):
-            v.site = v.site + '|' + c.get('_point', ''); vs.append(v)
+            v.site = v.site + '|' + point_class(c); vs.append(v)
     return vs, rs
 
 @check('C15')
@@ -439,7 +505,7 @@ def check_c15(tier, seed):
         else:
             vs += c15_oracle(c, r, variant)
         for v in relabel(single_violations(c, r, variant), 'C15', ('TERM', 'CRASH')):
-            v.site = v.site + '|' + c.get('_point', ''); vs.append(v)
+            v.site = v.site + '|' + point_class(c); vs.append(v)
         for v in vs:
             if c.get('world') == 'dec': v.case = inline_stream(v.case)
             ck.add(v, 'single15')
